@@ -2,8 +2,8 @@
 import re
 
 import anchors
-from core import (BA, call_matches, callee_paths, op_local, op_place, op_const, const_int, place_fields, rvalue_places,
-                  field_writes, taint)
+from core import (BA, FA, call_matches, callee_paths, op_local, op_place, op_const, const_int, place_fields, rvalue_places,
+                  field_writes, taint, closure_sites)
 from rules import common, dirt
 from rules.C06 import backward_direct, primary_target_rule
 
@@ -47,17 +47,26 @@ def run(ctx):
     # and redo-ifchange's edge recording is skipped only for that flag / at top level
     I2 = prog.one(r"@bin::ifchange::run::\{closure#0\}")
     i2 = BA.of(I2)
-    unl = i2.switches_on_call(r"env::Env::is_unlocked")
-    adds2 = i2.calls(r"state::File::add_dep")
-    ok = bool(unl) and bool(adds2) and all(any(i2.edge_dominates((sw, f_t), a) or i2.path([f_t], [a], incl=True) for (sw, t_t, f_t, c) in unl) for a in adds2)
+    f2a = FA.of(I2)
+    sites2 = _add_dep_sites(prog, I2)
+    adds2 = [x["bb"] for x in sites2]
+    # the not-unlocked outcome of is_unlocked(): wherever the branch on that result sits (directly on the call, behind
+    # `!`, or on a bool local that `a && !is_unlocked()` was stored in) - asked over feasible paths, so that the
+    # `None` (no parent) value of the record does not "reach" the Some arm
+    not_unl = []
+    for c in i2.calls(r"env::Env::is_unlocked"):
+        not_unl.extend(f2a.call_outcomes(c)[False])
+    ok = bool(not_unl) and bool(adds2) and all(f2a.path([], [a], states=not_unl) is not None for a in adds2)
     ctx.ob("R1.8", "%s|edges-skipped-only-when-unlocked" % I2.key, ok, where=I2.span, detail="the add_dep loop is reached on the not-unlocked side of the is_unlocked() test")
 
     # ---- R1.3
     I = prog.one(r"@bin::ifchange::run::\{closure#0\}")
     iba = BA.of(I)
+    ifa = FA.of(I)
     runs = iba.calls(r"jobserver::JobServer::block_on")
     br = iba.calls(r"builder::run")
-    adds = iba.calls(r"state::File::add_dep")
+    sites = _add_dep_sites(prog, I)
+    adds = [x["bb"] for x in sites]
     saves = iba.calls(r"state::File::save")
     commits = iba.calls(r"state::ProcessTransaction::commit")
     fn = iba.calls(r"state::File::from_name")
@@ -66,32 +75,46 @@ def run(ctx):
         somes = []
         for sw in sorted(iba.live):
             es = iba.enum_switch(sw)
-            if es and "core::option::Option<state::File>" == I.locals[es[0]["l"]]:
+            if es and "core::option::Option<state::File>" == I.locals[es[0]["l"]] and not es[0]["p"]:
                 somes.append((sw, es[1].get(1)))
-        ok = False
+        # (a record obtained through a helper travels as Result<Option<File>>: the `?` in between is a switch on another
+        # type; the parent-present edge is the Some arm of the switch on the Option<File> itself. Feasible paths:
+        # an error return of a spliced-in helper does not continue into the caller's success path.)
+        ok = bool([1 for sw, st in somes if st is not None])
         for sw, st in somes:
             if st is None:
                 continue
-            p1 = iba.path([st], br, avoid=frozenset(saves), incl=True)
-            p2 = iba.path([st], br, avoid=frozenset(commits), incl=True)
-            ok = p1 is None and p2 is None and all(iba.edge_dominates((sw, st), a) for a in adds)
+            p1 = ifa.path([st], br, avoid=frozenset(saves), incl=True)
+            p2 = ifa.path([st], br, avoid=frozenset(commits), incl=True)
+            ok = ok and p1 is None and p2 is None and all(ifa.edge_dominates((sw, st), a) for a in adds)
         ctx.ob("R1.3", "%s|edges-saved-and-committed-before-build" % I.key, ok, where=ctx.where(I, br[0]),
                detail="when there is a parent target: add_dep loop, save and commit all precede builder::run" if ok else "the dependency edges are not committed before the dependencies are built")
         # mode and same targets
-        at = I.blocks[adds[0]]["term"]
+        site = sites[0]
+        AB, abb = site["body"], site["call"]
+        at = AB.blocks[abb]["term"]
+        aba = BA.of(AB)
         mode = op_const(at["args"][2])
         if mode is None:
-            dd = iba.single_def(op_local(at["args"][2]))
+            dd = aba.single_def(op_local(at["args"][2]))
             if dd and dd[0] == "stmt" and dd[3]["k"] == "agg":
                 mode = {"variant": dd[3].get("variant")}
-        ctx.ob("R1.3", "%s|edge-mode-Modified" % I.key, (mode or {}).get("variant") == "Modified", where=ctx.where(I, adds[0]), detail="add_dep mode: %s" % (mode or {}).get("variant"))
+        ctx.ob("R1.3", "%s|edge-mode-Modified" % I.key, (mode or {}).get("variant") == "Modified", where=ctx.where(AB, abb), detail="add_dep mode: %s" % (mode or {}).get("variant"))
         # the vector iterated for add_dep and the slice given to builder::run are the same upvar
         bt = I.blocks[br[0]]["term"]
         sl_run, _, _ = backward_direct(I, op_local(bt["args"][2]))
-        sl_add, _, _ = backward_direct(I, op_local(at["args"][3]), depth=200)
+        if site["kind"] == "direct":
+            sl_add, _, _ = backward_direct(I, op_local(at["args"][3]), depth=200)
+            from_item = True
+        else:
+            # add_dep sits in a closure handed to an iterator adaptor: the edge must name the closure's item, and the
+            # iterator the adaptor runs over is what is traced back in the enclosing body
+            csl, _, _ = backward_direct(AB, op_local(at["args"][3]), depth=60)
+            from_item = any(l is not None and 2 <= l <= AB.arg_count for l in csl)
+            sl_add, _, _ = backward_direct(I, op_local(I.blocks[site["bb"]]["term"]["args"][0]), depth=200)
         up_run = {u for l in sl_run for u in _upvars_read(I, l)}
         up_add = {u for l in sl_add for u in _upvars_read(I, l)}
-        ok = bool(up_run & up_add)
+        ok = bool(up_run & up_add) and from_item
         ctx.ob("R1.3", "%s|same-targets-recorded-and-built" % I.key, ok, where=ctx.where(I, adds[0]),
                detail="add_dep iterates the same captured `%s` that is passed to builder::run" % sorted(up_run & up_add) if ok else "the recorded edges are not for the targets that get built (%s vs %s)" % (sorted(up_add), sorted(up_run)))
 
@@ -168,3 +191,32 @@ def _upvars_read(body, l):
                     if u:
                         out.add(u[1])
     return out
+
+
+def _add_dep_sites(prog, body):
+    """Where `body` records dependency edges: [{bb, kind, body, call}] - a direct `File::add_dep` call (kind
+    'direct': bb == call, in `body`), or a call that is handed a closure built in `body` on all of whose paths
+    add_dep is called (`iter.try_for_each(|t| f.add_dep(..))`; kind 'closure': bb is the adaptor call in `body`,
+    `call` the add_dep block inside the closure `body`)."""
+    from facts import strip_generics
+    ba = BA.of(body)
+    out = [{"bb": a, "kind": "direct", "body": body, "call": a} for a in ba.calls(r"state::File::add_dep")]
+    for i in ba.all_calls():
+        t = body.blocks[i]["term"]
+        for g in t.get("gargs", []):
+            ck = strip_generics(g["closure"]) if "closure" in g else None
+            cb = prog.bodies.get(ck) if ck else None
+            if cb is None:
+                continue
+            # the closure object is built in this body (possibly in a spliced-in helper) and is an argument of this call
+            handed = False
+            for (bb, j, dest, k, ops) in closure_sites(body, ck):
+                for a in t["args"]:
+                    al = op_local(a)
+                    if al is not None and (al == dest or dest in ba.ref_chain(al)):
+                        handed = True
+            cba = BA.of(cb)
+            inner = cba.calls(r"state::File::add_dep")
+            if handed and inner and cba.path([0], cba.returns(), avoid=frozenset(inner), incl=True) is None:
+                out.append({"bb": i, "kind": "closure", "body": cb, "call": inner[0]})
+    return sorted(out, key=lambda x: x["bb"])
